@@ -856,3 +856,33 @@ def refine_cmp(v, op, c):
 
 NEG = {"Eq": "Ne", "Ne": "Eq", "Lt": "Ge", "Le": "Gt", "Gt": "Le", "Ge": "Lt"}
 SWAP = {"Eq": "Eq", "Ne": "Ne", "Lt": "Gt", "Le": "Ge", "Gt": "Lt", "Ge": "Le"}
+
+
+def short(v, limit=6):
+    """compact rendering of abstract values for reports"""
+    if isinstance(v, frozenset):
+        vs = sorted(v)
+        if len(vs) > limit and vs == list(range(vs[0], vs[-1] + 1)):
+            return "{%#x..%#x}" % (vs[0], vs[-1])
+        if len(vs) > limit:
+            return "{%d values %#x..%#x}" % (len(vs), vs[0], vs[-1])
+        return "{" + ",".join("%#x" % x for x in vs) + "}"
+    if isinstance(v, bool):
+        return str(int(v))
+    if isinstance(v, int):
+        return "%#x" % v
+    if isinstance(v, Agg):
+        return "(" + ", ".join(short(x, limit) for x in v.f) + ")"
+    if isinstance(v, En):
+        return "En{" + ", ".join("%s:%s" % (k, "(" + ",".join(short(x, limit) for x in f) + ")") for k, f in sorted(v.vs.items())) + "}"
+    if isinstance(v, Arr):
+        if len(v.e) > 8:
+            return "[%d elems]" % len(v.e)
+        return "[" + ", ".join(short(x, limit) for x in v.e) + "]"
+    if isinstance(v, ArrS):
+        return "[%s x %s]" % (short(v.elem, limit), short(v.n, limit))
+    if isinstance(v, dict):
+        return "{" + ", ".join("%s: %s" % (k, short(x, limit)) for k, x in v.items()) + "}"
+    if isinstance(v, (list, tuple)):
+        return "[" + ", ".join(short(x, limit) for x in v) + "]"
+    return repr(v)
